@@ -47,6 +47,8 @@ def mutations(y):
     for sec in ("os", "services", "processes"):
         d = m(); d[sec] = []; yield f"{sec}-empty", d
         d = m(); d[sec] = d[sec] + [d[sec][0]]; yield f"{sec}-duplicate", d
+        d = m(); d[sec] = [d[sec][0]] + d[sec]; yield f"{sec}-duplicate-adjacent", d
+        d = m(); d[sec] = d[sec] + [d[sec][-1]]; yield f"{sec}-duplicate-last", d
     sh = list(y["sensitive_hosts"])
     nsub = len(y["subnets"])
     d = m(); v = d["sensitive_hosts"].pop(sh[0]); d["sensitive_hosts"]["(99, 0)"] = v; yield "sensitive-bad-subnet", d
@@ -93,6 +95,7 @@ def mutations(y):
     d = m(); d["host_configurations"][h0]["processes"].append("nonexistent"); yield "host-unknown-process", d
     d = m(); d["host_configurations"][hl]["os"] = "nonexistent"; yield "host-unknown-os", d
     d = m(); s = d["host_configurations"][h0]["services"]; s.append(s[0]); yield "host-duplicate-service", d
+    d = m(); s = d["host_configurations"][hl]["services"]; s.insert(0, s[0]); yield "host-duplicate-service-adjacent", d
     for hx in hc:
         if y["host_configurations"][hx]["processes"]:
             d = m(); s = d["host_configurations"][hx]["processes"]; s.append(s[0]); yield "host-duplicate-process", d
@@ -105,6 +108,10 @@ def mutations(y):
     d = m(); d["host_configurations"][hl]["firewall"] = {h0: ["nonexistent"]}; yield "hostfw-unknown-service", d
     d = m(); d["host_configurations"][h0]["firewall"] = {hl: sv}; yield "hostfw-not-a-list", d
     d = m(); d["host_configurations"][h0]["firewall"] = {h0: [sv, sv]}; yield "hostfw-duplicate-service", d
+    if len(y["services"]) > 1:
+        s1 = y["services"][1]
+        d = m(); d["host_configurations"][h0]["firewall"] = {hl: [sv, s1, sv]}; yield "hostfw-duplicate-service-apart", d
+        d = m(); d["host_configurations"][hl]["firewall"] = {h0: [s1, sv, s1]}; yield "hostfw-duplicate-second-service-apart", d
     # same faults placed after a valid entry (validation must not stop at the first entry)
     d = m(); d["host_configurations"][h0]["firewall"] = {h0: [sv], "(99, 0)": []}; yield "hostfw-second-entry-bad-address", d
     d = m(); d["host_configurations"][h0]["firewall"] = {h0: [sv], hl: ["nonexistent"]}; yield "hostfw-second-entry-unknown-service", d
@@ -127,6 +134,11 @@ def mutations(y):
         d = m(); d["firewall"][f0] = sv; yield "firewall-rule-not-a-list", d
         d = m(); d["firewall"][fl] = None; yield "firewall-rule-none", d
         d = m(); d["firewall"][f0] = [sv, sv]; yield "firewall-duplicate-service", d
+        if len(y["services"]) > 1:
+            s1 = y["services"][1]
+            d = m(); d["firewall"][fl] = [sv, s1, sv]; yield "firewall-duplicate-service-apart", d
+            d = m(); d["firewall"][f0] = [s1, sv, s1, sv] if len(y["services"]) > 1 else [sv, sv]; yield "firewall-two-duplicates-apart", d
+            d = m(); d["firewall"][f0] = list(y["services"]) + [y["services"][-1]]; yield "firewall-duplicate-last-of-full-list", d
         d = m(); d["firewall"][fl] = [sv, "nonexistent"]; yield "firewall-unknown-service", d
     d = m(); d["step_limit"] = 0; yield "step-limit-zero", d
     d = m(); d["step_limit"] = -3; yield "step-limit-negative", d
